@@ -37,12 +37,12 @@ type CV struct {
 }
 
 type Field struct {
-	ID   *int64
+	ID    *int64
 	IDLit string // optional spelling
-	Name string
-	Req  byte // r o d
-	Ty   *TExpr
-	Dflt *CV
+	Name  string
+	Req   byte // r o d
+	Ty    *TExpr
+	Dflt  *CV
 }
 
 type Func struct {
@@ -70,8 +70,8 @@ type Def struct {
 	Parent string     // V ("" = none)
 	Funcs  []*Func    // V
 	// generator's bookkeeping
-	File       int
-	ParentDef  *Def
+	File      int
+	ParentDef *Def
 }
 
 type Include struct {
